@@ -356,9 +356,19 @@ func parseClause(s, where string) (Clause, error) {
 	for i < len(s) && (unicode.IsLetter(rune(s[i])) || unicode.IsDigit(rune(s[i])) || s[i] == '_' || s[i] == '@' || s[i] == '#') {
 		i++
 	}
-	if i > 0 && i < len(s) && s[i] == ':' && (i+1 >= len(s) || s[i+1] != ':') {
+	// "label[C08 C19]:" restricts the clause to the listed properties
+	j := i
+	var only []string
+	if i > 0 && i < len(s) && s[i] == '[' {
+		if k := strings.Index(s[i:], "]"); k > 0 {
+			only = strings.Fields(strings.ReplaceAll(s[i+1:i+k], ",", " "))
+			j = i + k + 1
+		}
+	}
+	if i > 0 && j < len(s) && s[j] == ':' && (j+1 >= len(s) || s[j+1] != ':') {
 		cl.Label = s[:i]
-		s = s[i+1:]
+		cl.Serves = only
+		s = s[j+1:]
 	}
 	e, err := parseExpr(s)
 	if err != nil {
